@@ -1024,6 +1024,25 @@ func (e *SpecEnv) evalCall(n *ast.CallExpr) (Val, error) {
 			}
 			e.fc.eng.declMath("math." + strings.ToUpper(id.Name[:1]) + id.Name[1:])
 			return Val{T: app("math."+strings.ToUpper(id.Name[:1])+id.Name[1:], args...), Ty: types.Typ[types.Float64]}, nil
+		case "haskey":
+			// haskey(m, k): k is a key of map m
+			if len(n.Args) != 2 {
+				return Val{}, fmt.Errorf("haskey(m, k)")
+			}
+			m, err := e.eval(n.Args[0])
+			if err != nil {
+				return Val{}, err
+			}
+			mt, ok := m.Ty.Underlying().(*types.Map)
+			if !ok {
+				return Val{}, fmt.Errorf("haskey: not a map")
+			}
+			k, err := e.eval(n.Args[1])
+			if err != nil {
+				return Val{}, err
+			}
+			_, dom := e.fc.mapLookup(e.st, m, e.coerce(k, mt.Key()))
+			return Val{T: dom, Ty: boolT}, nil
 		case "in":
 			// in(x, a, b, c...): x equals one of the listed values
 			v, err := e.eval(n.Args[0])
